@@ -317,6 +317,13 @@ def gen_strings():
             for n in (2, 3):
                 for tail in itertools.product(b'0149ax', repeat=n):
                     yield b's=' + q + e + bytes(tail) + q + b'\n'
+    # quoted literals continued over physical lines by backslash-newline, whose continuation lines look like something else: a comment,
+    # a directive, a section header, a closing quote of the other kind
+    for q in (b'"', b"'"):
+        for cont in (b'-- not a comment', b'// neither', b'--[[ nor this ]]', b'#include x.lua', b'__gfx__', b'  -- indented', b'\t--x',
+                     b'-->8', b'' , b"it's" if q == b'"' else b'say "hi"'):
+            yield b's=' + q + b'first\\\n' + cont + b'\\\n' + b'last' + q + b'\nx=1\n'
+            yield b'print(' + q + b'a\\\n' + cont + q + b')'
     for lvl in range(4):
         eq = b'=' * lvl
         for body in (b'', b'x', b'\nx', b'\r\nx', b'x\ny', b']', b']]' if lvl else b']', b']' + b'=' * max(0, lvl - 1) + b']' if lvl else b'x',
